@@ -5,6 +5,7 @@ hooks=["09edb0e","a04e5eb","f254399","bbd02c1"]
 NOTE="Trusted: the cfg(mini_moka_verif) hooks in /repo (mock clock, read-only snapshot/walker/estimate accessors, component facades, switch points), the reference model and oracles in /verif/harness/src, proptest 1.11. Exploration only: nothing is claimed about inputs, histories or schedules that were not generated."
 props={
  "C01":(["seq"],"reference-model PBT (proptest), safety direction","Every lookup result of generated histories on both caches is compared with a reference model: it must be nothing or the most recent, non-invalidated insert of that key. Held on all generated histories, incl. lookups while the key's own operations were still queued."),
+ "C02":(["sched"],"PBT over generated thread schedules (cooperative scheduler at cfg-guarded switch points) with a per-key history oracle; exhaustive litmus enumeration up to 2 preemptions","Programs of 2-4 real threads whose schedule is a generated, shrinkable list of preemptions; every get must return nothing or a value whose insert was not superseded by a write that completed before the get began; per-writer order never observed backwards; after quiescence the cache holds nothing or a last value per key."),
  "C03":(["seq"],"reference-model PBT, completeness direction + fits clause","Where capacity cannot bind (none, or >= the history's weight bound) every model-live entry must be shown by get/contains_key/iter after every step; for bounded caches every insert that fits in the physically remaining room must be retained and evict nothing (checked at quiescent points)."),
  "C04":(["seq"],"invariant PBT over physical residents","Sum of physical resident weights (snapshot hook) against max_capacity after every operation (unsync, with the growing-update allowance) and after sync() (concurrent); oversized fresh inserts never retained."),
  "C05":(["seq"],"deadline-invariant PBT with boundary-directed clock steps","No lookup may show a value at or after its own insert reading + ttl; clock steps are resolved against the model deadline (-1/0/+1 ns)."),
